@@ -809,3 +809,100 @@ func c20r8(rc *core.RC) {
 		rc.Unknown("decoder/container-decodepath-returns", token.NoPos, "found %d success returns in the element loops of the container DecodePath methods (confirmed: slice and map; the array and struct decoders do not support paths)", n)
 	}
 }
+
+// ---- C20.R9 a number reaches an integer destination without float arithmetic ----
+
+// Path.Unmarshal and Path.Get hand the selected parts, decoded into interface{} (numbers as float64), to the cast
+// helpers of assign.go. An integer destination gets int64(f) / uint64(f): every integer of magnitude below 2^53 is
+// exact in the float64 and is reproduced exactly by the conversion. Arithmetic on the float before the conversion
+// (adding 0.5 "to round", scaling) is not exact for large magnitudes: between 2^52 and 2^53 f+0.5 is a tie that
+// rounds to the even neighbour and every odd integer comes out one off. The operand of every float-to-integer
+// conversion in the decoder package therefore is the reflect.Value.Float() call, a variable or a field, with no
+// arithmetic in it; module helpers in operand position are followed one level.
+func c20r9(rc *core.RC) {
+	p := rc.P
+	n := 0
+	isFloat := func(t types.Type) bool {
+		b, ok := t.Underlying().(*types.Basic)
+		return ok && b.Info()&types.IsFloat != 0
+	}
+	isInteger := func(t types.Type) bool {
+		b, ok := t.Underlying().(*types.Basic)
+		return ok && b.Info()&types.IsInteger != 0
+	}
+	var arithmetic func(info *types.Info, e ast.Expr, depth int) string
+	arithmetic = func(info *types.Info, e ast.Expr, depth int) string {
+		bad := ""
+		ast.Inspect(e, func(m ast.Node) bool {
+			if bad != "" {
+				return false
+			}
+			switch x := m.(type) {
+			case *ast.BinaryExpr:
+				switch x.Op {
+				case token.ADD, token.SUB, token.MUL, token.QUO:
+					if t := info.TypeOf(x); t != nil && isFloat(t) {
+						if tv := info.Types[x]; tv.Value == nil {
+							bad = core.Src(p.Fset, x)
+						}
+					}
+				}
+			case *ast.CallExpr:
+				if f := core.Callee(info, x); f != nil && f.Pkg() != nil && strings.HasPrefix(f.Pkg().Path(), core.ModPath) && depth < 1 {
+					if fd := p.DeclOf(f); fd != nil && fd.Body != nil {
+						finfo := p.Info(fd)
+						ast.Inspect(fd.Body, func(k ast.Node) bool {
+							if ret, ok := k.(*ast.ReturnStmt); ok {
+								for _, r := range ret.Results {
+									if t := finfo.TypeOf(r); t != nil && isFloat(t) {
+										if a := arithmetic(finfo, r, depth+1); a != "" && bad == "" {
+											bad = f.Name() + " returns " + a
+										}
+									}
+								}
+							}
+							return true
+						})
+					}
+				}
+			}
+			return true
+		})
+		return bad
+	}
+	for _, fd := range p.Funcs("decoder") {
+		if fd.Body == nil {
+			continue
+		}
+		info := p.Info(fd)
+		fn := p.FuncName(fd)
+		k := 0
+		ast.Inspect(fd.Body, func(m ast.Node) bool {
+			call, ok := m.(*ast.CallExpr)
+			if !ok || len(call.Args) != 1 {
+				return true
+			}
+			tv, isConv := info.Types[call.Fun]
+			if !isConv || !tv.IsType() || !isInteger(tv.Type) {
+				return true
+			}
+			at := info.TypeOf(call.Args[0])
+			if at == nil || !isFloat(at) {
+				return true
+			}
+			if v := info.Types[call.Args[0]]; v.Value != nil {
+				return true
+			}
+			n++
+			k++
+			rc.Touch(fn)
+			key := fmt.Sprintf("%s/float-to-integer#%d operand-without-arithmetic", fn, k)
+			a := arithmetic(info, call.Args[0], 0)
+			rc.Check(a == "", key, call.Pos(), "the float64 that is converted to an integer (%s) is the decoded number itself: arithmetic on it first (%s) is inexact for magnitudes of 2^52 and more, where adding 0.5 is a tie that rounds to even and moves every odd integer by one", core.Src(p.Fset, call), a)
+			return true
+		})
+	}
+	if n < 2 {
+		rc.Unknown("decoder/float-to-integer", token.NoPos, "found %d conversions of a float to an integer type in the decoder package (confirmed: castInt, castUint)", n)
+	}
+}
